@@ -35,34 +35,7 @@ def run(F, rep):
     rep.assumptions = ["finite-domain evaluation of per-base maps is exact", "Vec/slice operations have their std meaning"]
     G = cgmod.CallGraph(F)
     live = pipeline.live_scope(F, G)
-    # ------------------------------------------------------------ RC
-    maps = symbols.rc_maps(F, live)
-    want = {c: (3 - c if c < 4 else c) for c in range(256)}
-    nw = nr = 0
-    for c, parent, tab, site in maps:
-        side = "reader" if parent.startswith("ragc_core::decompressor") else "writer"
-        if "lz_diff" in parent:
-            side = "debug"
-        if side == "reader":
-            nr += 1
-        elif side == "writer":
-            nw += 1
-        diff = {k: (tab.get(k), want[k]) for k in want if tab.get(k) != want[k]} if "error" not in tab else tab
-        lost = sorted(k for k in diff if isinstance(k, int) and k >= 4)
-        rep.ob("C01-RC", "per-base map in %s (%s side) complements A/C/G/T and keeps every other code" % (parent.split("::", 1)[-1], side), not diff,
-               detail=("codes %s are not preserved (e.g. %s): ambiguity codes in a re-oriented segment are read back changed" % (lost[:8], dict(list(diff.items())[:3])))
-               if diff else "identical to the reader's table", site=site, key="C01-RC | %s | table" % c.key)
-    rep.floor("C01-RC", nw, 2, "write-side per-base maps under a reversing iterator (pre-computed data_rc, split halves)")
-    rep.floor("C01-RC", nr, 1, "read-side per-base map")
-    # who is used where: the helpers that re-orient split halves must be one of the tabulated maps
-    for f in F.funcs.values():
-        if f.key not in live or not f.key.startswith("ragc_core::agc_compressor::"):
-            continue
-        for bi, t in f.calls():
-            if not t.get("indirect") and re.search(r"kmer::reverse_complement$", t["callee"]) and f.kind == "closure":
-                # the 2-bit k-mer table applied to segment bytes
-                rep.ob("C01-RC", "segment bytes are not complemented through the 2-bit k-mer table (which maps every code >= 4 to 4)",
-                       f.key not in [c.key for c, _, _, _ in maps], site=site_of(f, t), key="C01-RC | %s | uses 2-bit table" % f.key)
+    rc_rule(F, rep, live)
 
     # ------------------------------------------------------------ OVL
     # (a) writer overlap: C10-S1 on the segmenter the worker calls
@@ -248,6 +221,18 @@ def run(F, rep):
         # the segment descriptors (which group, which in-group id) are part of the round trip: their codec clauses are shared (C02-PRED = C03-PRED)
         if o["rule"] in ("C02-PRED", "C02-SIB", "C02-META"):
             rep.ob("C01-DESC", o["instance"], o["ok"], detail=o["detail"], site=o["site"], how=o["how"], key=o["key"].replace("C02-", "C01-DESC/"))
+    # (READER) extraction walks all samples on one reader handle: what a query leaves behind must not change a later answer
+    # (C08's effect clauses: queries write only caches, single cache filler, no stale or partial cache entries, idempotent loader)
+    from rules import c08
+    sub = Report(rep.pid, rep.tier)
+    sub.cfg = getattr(rep, "cfg", "dev")
+    c08.run(F, sub)
+    nrd = 0
+    for o in sub.obligations:
+        if o["rule"] in ("C08-H1", "C08-H2", "C08-H3", "C08-H8"):
+            nrd += 1
+            rep.ob("C01-READER", o["instance"], o["ok"], detail=o["detail"], site=o["site"], how=o["how"], key=o["key"].replace(o["rule"], "C01-READER/" + o["rule"][4:]))
+    rep.floor("C01-READER", nrd, 20, "reader-state clauses shared with C08")
     if getattr(F, "cfg", "dev") == "dev":
         from rules import c03 as c03v
         c03v.vint_rule(F, rep, "C01-DESC", want=("rt",))       # raw lengths and ids of the descriptors travel through this code
@@ -425,3 +410,37 @@ def split_rule(F, rep, live):
                 rep.ob("C01-SPLIT", "%s passes the archive's k as the overlap of %s" % (ck.split("::", 1)[-1], key.rsplit("::", 1)[-1]), ok, detail=fmt(a),
                        site=site_of(cf, t), key="C01-SPLIT | %s | k argument of %s" % (ck, key.rsplit("::", 1)[-1]))
     rep.floor("C01-SPLIT", n, 1, "live bodies that cut a segment into two overlapping parts (split_segment_at_position)")
+
+
+def rc_rule(F, rep, live=None):
+    if live is None:
+        G = cgmod.CallGraph(F)
+        live = pipeline.live_scope(F, G)
+    maps = symbols.rc_maps(F, live)
+    want = {c: (3 - c if c < 4 else c) for c in range(256)}
+    nw = nr = 0
+    for c, parent, tab, site in maps:
+        side = "reader" if parent.startswith("ragc_core::decompressor") else "writer"
+        if "lz_diff" in parent:
+            side = "debug"
+        if side == "reader":
+            nr += 1
+        elif side == "writer":
+            nw += 1
+        diff = {k: (tab.get(k), want[k]) for k in want if tab.get(k) != want[k]} if "error" not in tab else tab
+        lost = sorted(k for k in diff if isinstance(k, int) and k >= 4)
+        rep.ob("C01-RC", "per-base map in %s (%s side) complements A/C/G/T and keeps every other code" % (parent.split("::", 1)[-1], side), not diff,
+               detail=("codes %s are not preserved (e.g. %s): ambiguity codes in a re-oriented segment are read back changed" % (lost[:8], dict(list(diff.items())[:3])))
+               if diff else "identical to the reader's table", site=site, key="C01-RC | %s | table" % c.key)
+    rep.floor("C01-RC", nw, 2, "write-side per-base maps under a reversing iterator (pre-computed data_rc, split halves)")
+    rep.floor("C01-RC", nr, 1, "read-side per-base map")
+    # who is used where: the helpers that re-orient split halves must be one of the tabulated maps
+    for f in F.funcs.values():
+        if f.key not in live or not f.key.startswith("ragc_core::agc_compressor::"):
+            continue
+        for bi, t in f.calls():
+            if not t.get("indirect") and re.search(r"kmer::reverse_complement$", t["callee"]) and f.kind == "closure":
+                # the 2-bit k-mer table applied to segment bytes
+                rep.ob("C01-RC", "segment bytes are not complemented through the 2-bit k-mer table (which maps every code >= 4 to 4)",
+                       f.key not in [c.key for c, _, _, _ in maps], site=site_of(f, t), key="C01-RC | %s | uses 2-bit table" % f.key)
+
